@@ -370,64 +370,156 @@ def stmts_of(body_hir):
     return (v.get("stmts") or []) + ([v["expr"]] if v.get("expr") is not None else [])
 
 
+def _diverges_from(b, start, memo):
+    """does every path from `start` end in a call that does not return (a panic)?"""
+    if start in memo:
+        return memo[start]
+    memo[start] = False
+    seen, work = set(), [start]
+    ok = True
+    while work:
+        x = work.pop()
+        if x in seen:
+            continue
+        seen.add(x)
+        t = b.blocks[x]["term"]
+        if t["k"] == "return":
+            ok = False
+            break
+        if t["k"] == "call" and t.get("t") is None:
+            continue
+        if t["k"] == "unreachable":
+            continue
+        nx = [y for y in mir.succs(b.blocks[x]) if not b.blocks[y].get("cleanup")]
+        if not nx and t["k"] not in ("call",):
+            continue
+        work.extend(nx)
+        if len(seen) > 40:
+            ok = False
+            break
+    memo[start] = ok
+    return ok
+
+
+def _guard_kind(b, defs, op):
+    """What a panicking guard compares: 'bounds' (an ordering with a len()), 'align' (is_multiple_of / remainder), 'frame-id' (the
+    id of a pointer with the id of a frame)."""
+    kinds = set()
+    if not mir.is_place_op(op):
+        return kinds
+    seen = set()
+    work = [op[1][0]]
+    names_ = set()
+    keys = []
+    ops_ = set()
+    while work:
+        l = work.pop()
+        if l in seen or len(seen) > 60:
+            continue
+        seen.add(l)
+        for d in defs.defs.get(l, []):
+            if d[2] == "call":
+                names_.add(hir.last(mir.callee_def(d[3]) or ""))
+                for a in d[3]["args"]:
+                    if mir.is_place_op(a):
+                        keys.append(mir.origin_key(b, defs, a[1]))
+                        work.append(a[1][0])
+            elif d[2] == "assign":
+                rv = d[3]["rv"]
+                if rv["k"] == "bin":
+                    ops_.add(rv["op"])
+                for o in (rv.get("a"), rv.get("b"), rv.get("o")):
+                    if o is not None and mir.is_place_op(o):
+                        keys.append(mir.origin_key(b, defs, o[1]))
+                work.extend(mir.rv_locals(rv))
+    if "len" in names_ and ops_ & {"Le", "Lt", "Ge", "Gt"}:
+        kinds.add("bounds")
+    if "is_multiple_of" in names_ or ops_ & {"Rem"}:
+        kinds.add("align")
+    joined = " ".join(keys)
+    if ("stack_id" in joined and re.search(r"(^|[ .])id( |$|\.)", joined)) and (ops_ & {"Eq", "Ne"} or names_ & {"eq", "ne"}):
+        kinds.add("frame-id")
+    return kinds
+
+
+_GUARDS = {}
+
+
+def guards_before(F, b, target, depth=0):
+    """Kinds of the panicking guards that every path to block `target` has passed: dominating switches with a side that can only
+    panic, and crate helpers called on the way whose own guards precede their return."""
+    defs = mir.Defs(b)
+    dom = mir.dominators(b)
+    memo = {}
+    kinds = set()
+    for sb in dom[target]:
+        t = b.blocks[sb]["term"]
+        if sb == target:
+            continue
+        if t["k"] == "switch":
+            succ = list(mir.succs(b.blocks[sb]))
+            if any(_diverges_from(b, x, memo) for x in succ) and any(not _diverges_from(b, x, memo) for x in succ):
+                kinds |= _guard_kind(b, defs, t["o"])
+        elif t["k"] == "call" and depth < 2:
+            c = mir.callee(t) or ""
+            hb = F.body(c)
+            if hb is not None and hb.mir and c.startswith("lir::eval::") and c != b.path:
+                kinds |= helper_guards(F, hb, depth + 1)
+    return kinds
+
+
+def helper_guards(F, hb, depth=1):
+    if hb.path in _GUARDS:
+        return _GUARDS[hb.path]
+    _GUARDS[hb.path] = set()
+    rets = [bi for bi, blk in enumerate(hb.blocks) if blk["term"]["k"] == "return"]
+    ks = None
+    for rb in rets:
+        k = guards_before(F, hb, rb, depth)
+        ks = k if ks is None else (ks & k)
+    _GUARDS[hb.path] = ks or set()
+    return _GUARDS[hb.path]
+
+
 def rule_v3(F):
+    """Every slice of an allocation is taken only after the bounds and the alignment of the access were asserted, and a frame is only
+    touched through a local pointer after the pointer's frame id was compared with the frame's - on every path, wherever the assertion
+    is written (in the accessor, or in a helper of lir::eval that the accessor calls first)."""
     r = RuleResult("C20.V3", "checked memory: bounds+alignment asserts precede slicing; frame id compared before a frame is touched", floor=4)
+    _GUARDS.clear()
     for fn in ("lir::eval::Allocation::read", "lir::eval::Allocation::write"):
         b = F.body(fn)
-        if b is None:
+        if b is None or not b.mir:
             r.missing(fn)
             continue
-        st = stmts_of(b.hir)
-        first_index = None
-        asserts = []
-        for i, s in enumerate(st):
-            has_idx = any(n.get("k") == "index" for n in hir.walk(s))
-            is_assert = any("assert" in (n.get("mac") or []) for n in hir.walk(s))
-            if is_assert and not has_idx:
-                txt = {n.get("m") for n in hir.nodes(s, "mcall")} | {n.get("op") for n in hir.nodes(s, "bin")}
-                asserts.append((i, txt))
-            if has_idx and not is_assert and first_index is None:
-                first_index = i
-        bounds = [i for i, t in asserts if "len" in t and ("<=" in t or "<" in t)]
-        align = [i for i, t in asserts if "is_multiple_of" in t or "%" in t]
-        r.inst(fn, {"fn": fn, "bounds_assert_at_stmt": bounds, "alignment_assert_at_stmt": align, "first_slice_stmt": first_index})
-        if first_index is None:
+        slices = [bi for bi, t in mir.calls(b) if hir.last(mir.callee_def(t) or "") in ("index", "index_mut", "get_unchecked", "get_unchecked_mut", "copy_from_slice", "split_at", "split_at_mut")
+                  and ("slice" in (mir.callee(t) or "") or "Index" in (mir.callee_def(t) or ""))]
+        if not slices:
             r.missing("slice access in " + fn)
             continue
-        if not bounds or min(bounds) > first_index:
+        worst = None
+        for sb in slices:
+            k = guards_before(F, b, sb)
+            worst = k if worst is None else (worst & k)
+        r.inst(fn, {"fn": fn, "slice_accesses": len(slices), "guards_on_every_path_to_them": sorted(worst)})
+        if "bounds" not in worst:
             r.bad(fn, "bounds", relfile(b.file), b.line, "no bounds assertion precedes the slice access")
-        if not align or min(align) > first_index:
+        if "align" not in worst:
             r.bad(fn, "alignment", relfile(b.file), b.line, "no alignment assertion precedes the slice access")
     for fn, callee in (("lir::eval::Memory::write", "write"), ("lir::eval::Memory::read_slice", "read")):
         b = F.body(fn)
-        if b is None:
+        if b is None or not b.mir:
             r.missing(fn)
             continue
-        ok = False
-        for m in hir.find_match_on(b.hir["value"], "Pointer::", min_arms=1):
-            for rw in hir.table(m):
-                if not any(a.startswith("Pointer::Local") for a in rw["alts"]):
-                    continue
-                st = (hir.strip(rw["body"]).get("stmts") or []) + [hir.strip(rw["body"]).get("expr")]
-                chk = None
-                use = None
-                for i, s in enumerate(st):
-                    if s is None:
-                        continue
-                    fields = {n.get("n") for n in hir.nodes(s, "field")}
-                    is_assert = any(any(x.startswith("assert") for x in (n.get("mac") or [])) for n in hir.walk(s))
-                    if is_assert and {"id", "stack_id"} <= fields and chk is None:
-                        chk = i
-                    if any(n.get("m") == callee and not is_assert for n in hir.nodes(s, "mcall")) and use is None:
-                        use = i
-                ok = chk is not None and use is not None and chk < use
-        r.inst(fn, {"fn": fn, "frame_id_checked_before_access": ok})
+        uses = [bi for bi, t in mir.calls(b) if hir.last(mir.callee(t) or "") == callee and "StackFrame" in (mir.callee(t) or "")]
+        ok = bool(uses) and all("frame-id" in guards_before(F, b, ub) for ub in uses)
+        r.inst(fn, {"fn": fn, "frame_accesses": len(uses), "frame_id_checked_before_access": ok})
         if not ok:
             r.bad(fn, "frame id", relfile(b.file), b.line, "the frame id of a local pointer is not compared before the frame is accessed (use after free would go unnoticed)")
     g = F.body("lir::eval::Memory::get")
-    if g is not None:
-        has = any({"id", "stack_id"} <= {n.get("n") for n in hir.nodes(s, "field")} for s in hir.walk(g.hir["value"]) if isinstance(s, dict) and s.get("k") == "if")
-        if not has:
+    if g is not None and g.mir:
+        uses = [bi for bi, t in mir.calls(g) if "StackFrame" in (mir.callee(t) or "")]
+        if uses and not all("frame-id" in guards_before(F, g, ub) for ub in uses):
             r.note("cross-reference (not armed, no witness IR): Memory::get lacks the frame-id comparison its siblings write/read_slice have")
     return r
 
@@ -517,24 +609,56 @@ def rule_v7(F):
         r.missing("lir::eval LocalPointer::offset_by")
         return r
     b = F.body(ps[0])
-    ld = hir.LocalDefs(b.hir)
-    pidx = hir.param_index(b.hir)
+    if not b.mir:
+        r.missing("MIR of LocalPointer::offset_by")
+        return r
+    defs = mir.Defs(b)
     n = 0
-    for st in hir.nodes(b.hir["value"], "struct"):
-        for f in st["fields"]:
-            if f[0] != "allocation_offset":
+    written = []          # (operand written to .allocation_offset, line)
+    for blk in b.blocks:
+        for st in blk["stmts"]:
+            if st["k"] != "assign":
                 continue
-            n += 1
-            e = hir.strip(f[1])
-            nodes = list(hir.walk_expanded(ld, e))
-            adds = [x for x in nodes if x.get("k") == "bin" and x.get("op") == "+"] + [x for x in nodes if x.get("k") == "mcall" and x["m"] in ("checked_add", "wrapping_add", "saturating_add")]
-            old = any(x.get("k") == "field" and x.get("n") == "allocation_offset" and hir.param_roots(b.hir, ld, x["e"], pidx=pidx) == {0} for x in nodes)
-            arg = any(x.get("k") == "path" and hir.res_local(x) in pidx and pidx[hir.res_local(x)] == 1 for x in nodes)
-            ok = bool(adds) and old and arg
-            r.inst("offset_by allocation_offset", {"adds": len(adds), "uses_old_position": old, "uses_offset_argument": arg})
-            if not ok:
-                r.bad(b.path, "allocation_offset", relfile(b.file), st["line"],
-                      "the offset pointer's position is not `old position + offset` (uses old position: %s, uses the argument: %s, addition: %s): offsetting an already offset pointer lands at the wrong field, inside the same allocation and aligned, so no check fires and the evaluator silently computes with other data than the compiled code" % (old, arg, bool(adds)))
+            rv = st["rv"]
+            if rv["k"] == "agg" and str(rv.get("adt", "")).endswith("LocalPointer") and "allocation_offset" in (rv.get("fields") or []):
+                written.append((rv["ops"][rv["fields"].index("allocation_offset")], st.get("line")))
+            elif len(st["p"]) >= 2 and isinstance(st["p"][-1], list) and st["p"][-1][0] == "f" and st["p"][-1][-1] == "allocation_offset" and rv["k"] == "use":
+                written.append((rv["o"], st.get("line")))
+    for op, line in written:
+        n += 1
+        ks = set()
+        adds = False
+        if mir.is_place_op(op):
+            seen, work = set(), [op[1][0]]
+            ks.add(mir.origin_key(b, defs, op[1]))
+            while work:
+                l = work.pop()
+                if l in seen:
+                    continue
+                seen.add(l)
+                for d in defs.defs.get(l, []):
+                    if d[2] == "assign":
+                        rv = d[3]["rv"]
+                        if rv["k"] == "bin" and rv["op"] in ("Add", "AddWithOverflow", "AddUnchecked"):
+                            adds = True
+                        for o in (rv.get("a"), rv.get("b"), rv.get("o")):
+                            if o is not None and mir.is_place_op(o):
+                                ks.add(mir.origin_key(b, defs, o[1]))
+                        work.extend(mir.rv_locals(rv))
+                    elif d[2] == "call":
+                        if hir.last(mir.callee_def(d[3]) or "") in ("checked_add", "wrapping_add", "saturating_add", "add"):
+                            adds = True
+                        for a in d[3]["args"]:
+                            if mir.is_place_op(a):
+                                ks.add(mir.origin_key(b, defs, a[1]))
+                                work.append(a[1][0])
+        old = any(k.startswith("arg1") and "allocation_offset" in k for k in ks)
+        arg = any(re.match(r"arg2($|[.&*])", k) for k in ks)
+        ok = adds and old and arg
+        r.inst("offset_by allocation_offset", {"adds": adds, "uses_old_position": old, "uses_offset_argument": arg})
+        if not ok:
+            r.bad(b.path, "allocation_offset", relfile(b.file), line or b.line,
+                  "the offset pointer's position is not `old position + offset` (uses old position: %s, uses the argument: %s, addition: %s): offsetting an already offset pointer lands at the wrong field, inside the same allocation and aligned, so no check fires and the evaluator silently computes with other data than the compiled code" % (old, arg, adds))
     if n == 0:
         r.missing("allocation_offset field in LocalPointer::offset_by")
     return r
